@@ -443,7 +443,8 @@ def run(ctx):
                              f"the formula evaluated at the current values (evaluation {qi + 1})", case, want, got)
                     break
                 z = complex(ps.compute_unitary()[0, 0])
-                if abs(z - cmath.exp(1j * want)) > 1e-9:
+                # (a huge angle carries the rounding of its own ulp and of the wrap into [0, 2 pi): 1e-7 rad at 1e7 rad)
+                if abs(z - cmath.exp(1j * want)) > 1e-9 + 1e-14 * abs(want):
                     ctx.fail("operator-expression-stale", f"PS bound to the expression does not carry exp(i * value) (evaluation {qi + 1})",
                              case, str(cmath.exp(1j * want)), str(z))
                     break
